@@ -9,7 +9,7 @@ UNITS = [
 ]
 UNITS += [
   Unit("vf_getlap", ["C03", "C19"], "lib/vorbisfile.c", enforce="_ov_getlap", replace=["_fetch_and_process_packet"], loops="vf_getlap.loops",
-       harness="h_vf_getlap.c", entry="h_vf_getlap", unwindset=["rows_.0:1"], reach=2, kind="B", timeout=600,
+       harness="h_vf_getlap.c", entry="h_vf_getlap", reach=2, kind="B", timeout=600,
        bound="<= 2 channels (rows are harness-built); lap size 0..4096 (every half short block), sample counts offered by the decoder, number of packets fetched symbolic; all four loops closed by loop contracts",
        assumed=["pcmout / read / lapout as body-ful stubs after their proved contracts (units blk_pcmout, blk_read, blk_lapout); ASSUMED about lapout: it returns 0 only while the decoder holds no position, impossible once pcmout has delivered samples in this call",
                 "memcpy / memset modelled as range checks + arbitrary destination", "_fetch_and_process_packet by contract (any code <= 1; assumed callee); termination of the collecting loop depends on the data source (not claimed)"],
